@@ -33,10 +33,11 @@ type vfEnv struct {
 	replay   string
 	prop     string
 	scale    float64
+	only     int // >= 0: run only this case index (replay)
 }
 
 func vfGetEnv(prop string) *vfEnv {
-	e := &vfEnv{seed: 1, tier: "quick", nshards: 1, prop: prop, scale: 1}
+	e := &vfEnv{seed: 1, tier: "quick", nshards: 1, prop: prop, scale: 1, only: -1}
 	if s := os.Getenv("VERIF_SEED"); s != "" {
 		if v, err := strconv.ParseInt(s, 10, 64); err == nil {
 			e.seed = uint64(v) //nolint:gosec
@@ -66,6 +67,30 @@ func vfGetEnv(prop string) *vfEnv {
 	}
 	_ = os.MkdirAll(e.out, 0o755)
 	e.replay = os.Getenv("VERIF_REPLAY")
+	if e.replay != "" {
+		// a replay re-executes exactly the recorded (seed, tier, shard, case index)
+		var w struct {
+			Seed    uint64 `json:"seed"`
+			Tier    string `json:"tier"`
+			Shard   int    `json:"shard"`
+			NShards int    `json:"nshards"`
+			Witness struct {
+				Idx *int `json:"idx"`
+			} `json:"witness"`
+		}
+		if b, err := os.ReadFile(e.replay); err == nil && json.Unmarshal(b, &w) == nil {
+			e.seed, e.shard, e.nshards = w.Seed, w.Shard, w.NShards
+			if w.Tier != "" {
+				e.tier = w.Tier
+			}
+			if w.Witness.Idx != nil {
+				e.only = *w.Witness.Idx
+			}
+		}
+	}
+	if s := os.Getenv("VERIF_ONLY"); s != "" {
+		e.only, _ = strconv.Atoi(s)
+	}
 
 	return e
 }
